@@ -49,6 +49,18 @@ CHECKS = {
             "explicit-state BFS to closure with keep-alive prompts, suspend/resume and limit faults at every state; the monitor keeps its own bit set of delivered bytes",
             "Every KeepAlive PDU and every receiver Fault/Resumed/Abandon indication must state the number of distinct bytes delivered to the receiver; every sender Fault/Resumed/Abandon the highest offset+length transmitted; never above the file size, never decreasing. Sizes 0,17,47 (more thorough), lossy link, blackout scenarios with default and Abandon handlers.",
             E1_NOTE, "DESIGN.md section 4 C20"),
+    "C05": ("enum", "exploration",
+            "bounded exhaustive enumeration of a product grid of well-formed PDU values; oracle decode(encode(v)) == v and announced length == produced length",
+            "Complete product (fixed order) of header flag combinations, id widths 1/2/4/8 (equal-width entity ids, independent sequence-number width), boundary id values, every directive with every discrete field value, boundary numeric fields under both file-size flags, LV/TLV bodies of lengths 0/1/254/255, TLV sequences up to length 2 (quick) / 3 (thorough), NAK lists, segment metadata, every UserOperation variant and Report: 8.9 M (quick) / 39.7 M (thorough) values, each round-tripped and length-checked inside catch_unwind.",
+            "Boundary alphabets for numeric and string fields, not all values; only well-formed values are generated. One known finding (PDU::encoded_len overflows u16 for > 64 KiB PDUs) is listed in known_findings.json.", "DESIGN.md section 4 C05"),
+    "C06": ("enum", "exploration",
+            "bounded exhaustive enumeration of byte strings and of the mutation neighbourhood of a PDU corpus through every public decoder, under a counting global allocator; plus a running daemon fed with the rejected inputs",
+            "All byte strings of length <= 2 (quick) / 3 (thorough) and boundary-alphabet strings of length <= 6 / 8 through PDU::decode and every per-type decoder; for each corpus PDU (16 shapes x 2 file-size flags x 2 CRC settings) every truncation, every single-byte substitution, length/flag fields forced to boundary values; all 2^16 header lengths x CRC flag: no panic (overflow checks on), no single allocation above 256 KiB, and whatever is accepted re-encodes (length recomputed) and decodes to itself.",
+            "Length- and alphabet-bounded; two pruning rules (documented with their soundness argument in en_decode.rs) skip strings whose outcome is determined by a shorter prefix.", "DESIGN.md section 4 C06"),
+    "C11": ("daemon-dbx", "model_checking",
+            "deviation-bounded exhaustive scheduling of 2-3 real Daemon tasks (CHESS-style iterative bounding over take/deliver/drop/advance/user/stray choices) with per-transaction differential twins driven by the observed loop steps (hook H5)",
+            "Real daemons A, B (C thorough) with really spawned transaction tasks on a paused clock; T1 A->B acknowledged, T2 B->A unacknowledged with the same sequence number, T3 sharing A's transport slot; every schedule with <= 2 (quick) / 3 (thorough) deviations from the default, deviations being cross-transaction reordering, drops, overtaking, stray PDUs (responses for senders that do not exist, an entity without transport, file data for an unknown id, replays of delivered PDUs) at any point: Put ids distinct, each transaction's PDUs, indications, destination file and termination equal those of its isolated twin, daemons keep running and answering Report/Put after every stray, stray-started receivers end by their limits. The same runs validate E1's loop model against the real select! loops (single-transaction conformance).",
+            "Tens of transactions are not reached: 3 transactions, 3 daemons. A transaction sends as soon as its slot is free and time does not pass while a slot is full. Twin divergence in single-transaction scenarios is reported as machinery error (MODEL-DIVERGENCE), in multi-transaction scenarios as isolation violation.", "DESIGN.md section 4 C11"),
     "C12": ("enum", "exploration",
             "bounded exhaustive enumeration of path names over a component alphabet for every filestore entry point; lexical oracle with an independent resolver plus before/after snapshot of everything outside the root",
             "All names of <= 4 (quick) / 5 (thorough) components over {a, ., .., empty, the absolute root path, a sibling whose name extends the root's} with and without leading '/', through get_native_path, create/delete/rename/append/replace, create/remove/list directory, open (read, create-write), get_size and process_request with all nine actions, in a jail whose content outside the root is snapshotted around every operation.",
@@ -61,6 +73,10 @@ CHECKS = {
             "bounded exhaustive enumeration of contents, lengths and read-chunk schedules against the checksum definition written naively",
             "FileChecksum::checksum on Cursor and real files for every length 0..=64, 8185..=8200, 16380..=16390 with ramp / all-FF / single-byte contents, and on a scripted Read+Seek for all 2^(n-1) compositions of every n <= 14 (quick) / 18 (thorough) plus boundary scripts around the 8 KiB BufReader buffer; Null gives 0; every single-byte change (3 values, all positions, lengths <= 64) changes the sum.",
             "The naive reference (zero-pad, big-endian words, wrapping sum) is the CCSDS definition.", "DESIGN.md section 4 C14"),
+    "C15": ("enum", "fault_enumeration",
+            "exhaustive enumeration of bit-error patterns (single, double, odd-weight, bursts) over the CRC-protected bytes of a PDU corpus",
+            "For one PDU of every payload type x both file-size flags with CRC: every single-bit flip, every pair within 256 bits (quick) / all pairs (thorough), every triple in a 24-bit window, every burst of length <= 13 (quick) / 16 (thorough) with all interiors, at every position after the 4 fixed header octets including the CRC itself (34 M quick / 251 M thorough patterns): decode rejects, or returns the original; the unaltered bytes decode to the original; never a panic.",
+            "'Any odd number of flips' is covered for weight 1, weight 3 within 24 bits and the odd patterns inside bursts; the general statement is a theorem about the polynomial.", "DESIGN.md section 4 C15"),
     "C16": ("enum", "fault_enumeration",
             "exhaustive two-step histories on the real UdpTransport over loopback: every truncation of every datagram after every other datagram, differential against decoding the bytes alone",
             "Corpus of 14 (quick) / 40 (thorough) valid datagrams (all PDU types, with/without CRC); for every ordered pair (L, V) and every truncation length t in 0..=len(V): send L, receive, send V[..t], receive on a fresh transport; the second result must equal PDU::decode(V[..t]) computed on those bytes alone, the first decode(L).",
